@@ -1516,7 +1516,22 @@ def eval_routes_case(ctx, c, rep):
     origin_labels = [bytes.fromhex(x) for x in c["origin"]]
     O = dns.name.Name(origin_labels)
     rel, rrel, kw = c["rel"], c["rrel"], c["kw"]
-    z = build_zone(origin_labels, rel, c["recs"])
+    P = "C09/routes" + ("/" + c["tag"] if c.get("tag") else "")
+    try:
+        z = build_zone(origin_labels, rel, c["recs"])
+    except ValueError:
+        if c.get("tag") == "comment-line-break":
+            ctx.count("routes.comment-line-break-refused-at-construction")     # an acceptable repair: no such rdata can be made
+            return
+        raise
+    if c.get("empties"):
+        # falsy-but-valid content: a node without rdatasets and an rdataset without rdatas (what deleting the last rdata
+        # leaves behind); they carry no record, so the text and the zone read back do not change
+        z.find_node(dns.name.Name([b"empty-node"]) if rel else dns.name.Name([b"empty-node"] + origin_labels), create=True)
+        some = next(iter(z.nodes.values()))
+        some.rdatasets.append(dns.rdataset.Rdataset(IN, dns.rdatatype.from_text("TYPE65281")))
+    sig_before = zone_sig(z)
+    nrecords = sum(len(rds) for node in z.nodes.values() for rds in node.rdatasets)
     nl = {"n": "\n", "none": None, "bn": b"\n"}[kw["nl"]]
     args = dict(sorted=kw["sorted"], relativize=kw["relativize"], nl=nl, want_comments=kw["want_comments"], want_origin=kw["want_origin"])
     # what the keywords mean, written out independently (on this platform every nl value above is a line feed)
@@ -1525,8 +1540,17 @@ def eval_routes_case(ctx, c, rep):
     how, base = _outcome(lambda: z.to_styled_text(expect_style))
     ctx.count("routes.write")
     if base is None:
-        ctx.fail("C09/routes/write/to_styled_text-raises", f"{how} for keywords {kw}", rep)
+        ctx.fail(P + "/write/to_styled_text-raises", f"{how} for keywords {kw}", rep)
         return
+    # one line per record (plus the $ORIGIN line): whatever the names, strings and comments hold -- LF, CR, TAB, NUL, DEL,
+    # a trailing blank -- no raw line break may reach the text
+    lines = [ln for ln in base.split("\n") if ln != ""]
+    if len(lines) != nrecords + (1 if kw["want_origin"] else 0) or "\r" in base:
+        ctx.fail(P + "/write/raw-line-break", f"{nrecords} records were written as {len(lines)} lines: {base!r}", rep)
+        return
+    how2, again = _outcome(lambda: z.to_styled_text(expect_style))
+    if again != base or zone_sig(z) != sig_before:
+        ctx.fail(P + "/write/not-idempotent", f"writing twice gave {how2} {again!r} after {base!r}, or changed the zone", rep)
     d = _scratch()
     try:
         path = os.path.join(d, "out.zone")
@@ -1561,7 +1585,7 @@ def eval_routes_case(ctx, c, rep):
         for name, fn in routes.items():
             how, got = _outcome(fn)
             if got != base:
-                ctx.fail(f"C09/routes/write/{name}/differs",
+                ctx.fail(f"{P}/write/{name}/differs",
                          f"{name} with {kw} gave {how} {got!r}, the style these keywords denote gives {base!r}", rep)
         # --- reading the text back through every door
         with open(path, "wb") as f:
@@ -1570,11 +1594,11 @@ def eval_routes_case(ctx, c, rep):
         how, zA = _outcome(lambda: dns.zone.from_text(base, origin=give, relativize=rrel, check_origin=False))
         ctx.count("routes.read")
         if zA is None:
-            ctx.fail("C09/routes/read/from_text-raises", f"{how} on text written by the library {base!r}", rep)
+            ctx.fail(P + "/read/from_text-raises", f"{how} on text written by the library {base!r}", rep)
             return
         zr = build_zone(origin_labels, rrel, c["recs"])
         if not zones_equal(zA, zr):
-            ctx.fail("C09/routes/read/differs-from-zone", f"{base!r} (keywords {kw}) does not load back to the zone written", rep)
+            ctx.fail(P + "/read/differs-from-zone", f"{base!r} (keywords {kw}) does not load back to the zone written", rep)
         gs = None if give is None else give.to_text()
         readers = {
             "from_text/origin-str": lambda: dns.zone.from_text(base, origin=gs, relativize=rrel, check_origin=False),
@@ -1589,7 +1613,18 @@ def eval_routes_case(ctx, c, rep):
         for name, fn in readers.items():
             how, zb = _outcome(fn)
             if zb is None or not zones_equal(zA, zb):
-                ctx.fail(f"C09/routes/read/{name}/differs", f"{name} gave {how}, a zone other than from_text(str) on {base!r}", rep)
+                ctx.fail(f"{P}/read/{name}/differs", f"{name} gave {how}, a zone other than from_text(str) on {base!r}", rep)
+            elif type(zb) is type(zA) and not (zA == zb and zb == zA and not (zA != zb) and not (zb != zA)):
+                ctx.fail(f"{P}/equality/{name}", f"== / != of two equal zones disagree (routes from_text(str) and {name})", rep)
+        # the equality the property is stated in: reflexive, and a zone that lacks one record differs in both directions
+        if not (zA == zA) or (zA != zA):
+            ctx.fail(P + "/equality/reflexive", "a zone is not equal to itself", rep)
+        drop = next((i for i in range(len(c["recs"]) - 1, -1, -1) if c["recs"][i][2] not in ("SOA", "NS", "RRSIG", "CNAME")
+                     and sum(1 for r in c["recs"] if r[0] == c["recs"][i][0] and r[2] == c["recs"][i][2]) == 1), None)
+        if drop is not None and "RRSIG" not in {r[2] for r in c["recs"]}:
+            zu = build_zone(origin_labels, rrel, c["recs"][:drop] + c["recs"][drop + 1:])
+            if zones_equal(zA, zr) and (zA == zu or zu == zA or not (zA != zu) or not (zu != zA)):
+                ctx.fail(P + "/equality/unequal-zones-equal", f"a zone without {c['recs'][drop][2]} at one owner compares equal", rep)
         # check_origin default (True) on a zone that has SOA and NS at the apex
         # what the apex of the zone written holds (a signature covering CNAME among the records displaces the rest)
         apex = z.nodes.get(dns.name.empty if rel else O)
@@ -1745,6 +1780,23 @@ def eval_rrsets_case(ctx, c, rep):
     how3, z3 = _outcome(lambda: dns.zone.from_text(one, origin=O, relativize=rel, check_origin=False))
     if z3 is not None:
         check("type-forced", lambda: R(f"{o1} {t1} {rd1}\n", rdtype=ty1, origin=O, relativize=rel), zone_sig(z3))
+    if z3 is not None:
+        T1 = dns.rdatatype.from_text(ty1)
+        check("type-forced/enum", lambda: R(f"{o1} {t1} {rd1}\n", rdtype=T1, origin=O, relativize=rel), zone_sig(z3))
+        check("type-forced/int", lambda: R(f"{o1} {t1} {rd1}\n", rdtype=int(T1), origin=O, relativize=rel), zone_sig(z3))
+        check("class-enum", lambda: R(f"{o1} {t1} {ty1} {rd1}\n", rdclass=IN, default_rdclass="IN", origin=O, relativize=rel), zone_sig(z3))
+    # TTL given as text, with units
+    h1 = "".join(f"{o} 3600 IN {ty} {rd}\n" for o, t, ty, rd in rows)
+    how5, z5 = _outcome(lambda: dns.zone.from_text(h1, origin=O, relativize=rel, check_origin=False))
+    if z5 is not None:
+        nottl = "".join(f"{o} {ty} {rd}\n" for o, t, ty, rd in rows)
+        check("forced-ttl-text", lambda: R(nottl, ttl="1h", origin=O, relativize=rel), zone_sig(z5))
+        check("default_ttl-text-units", lambda: R(nottl, default_ttl="60m", origin=O, relativize=rel), zone_sig(z5))
+    # owner forced, given as absolute Name or as absolute text (the unrelativized reading)
+    if z3 is not None and not rel:
+        abs_owner = next(iter(z3.nodes))
+        check("name-forced/Name", lambda: R(f"{t1} IN {ty1} {rd1}\n", name=abs_owner, rdclass=None, origin=O, relativize=False), zone_sig(z3))
+        check("name-forced/str", lambda: R(f"{t1} IN {ty1} {rd1}\n", name=abs_owner.to_text(), rdclass=None, origin=O, relativize=False), zone_sig(z3))
     # no TTL anywhere: refused
     how4, got4 = _outcome(lambda: R(f"{o1} {ty1} {rd1}\n", origin=O, relativize=rel))
     if got4 is not None or not how4.startswith("err SyntaxError"):
@@ -2072,6 +2124,48 @@ def generate(ctx: Ctx, scale: int, rng, thorough=False):
         c = {"kind": "routes", "origin": hexl(origin), "rel": rng.chance(1, 2), "rrel": rng.chance(1, 2), "recs": recs, "kw": kw,
              "drop_origin": rng.chance(1, 2)}
         ctx.case(("routes", ri, str(kw)), sample=c if len(recs) < 8 else None)
+        eval_case(ctx, c)
+    # hostile-but-valid content: labels, strings and comments that begin or end with LF / CR / TAB / blank / NUL / DEL;
+    # empty nodes and rdatasets; one large zone (300 names, a 255-octet name, 65535 octets of RDATA)
+    EDGE = [b"\n", b"\r", b"\t", b" ", b"\x00", b"\x7f", b";", b"(", b"\""]
+    for hi in range(n(10)):
+        origin = ORIGINS[hi % 2]
+        recs = gen_zone_records(rng, origin, MODEL_TYPES, nnames=2, simple_names=True)
+        comments = ["tail ", "\ttab", "semi;colon", "q\"uote", "(paren", "back\\slash", "del\x7f", " lead", "x" * 300, ""]
+        for j in range(rng.range(2, 5)):
+            e1, e2 = rng.choice(EDGE), rng.choice(EDGE)
+            lab = rng.choice([b"a" + e1, e1 + b"b", e1 + b"c" + e2, e1])
+            txt = "".join("\\%03d" % b for b in (e2 + b"str" + e1))
+            recs.append([[lab + b"%d" % j] + list(origin), rng.choice([0, 60, 2**31 - 1]), rng.choice(["TXT", "TXT", "A"]), None, rng.choice(comments)])
+            recs[-1][3] = f'"{txt}" "{txt}"' if recs[-1][2] == "TXT" else f"192.0.2.{j}"
+        kw = {"sorted": rng.chance(1, 2), "relativize": rng.chance(1, 2), "nl": "n", "want_comments": hi % 3 != 2, "want_origin": rng.chance(1, 2)}
+        c = {"kind": "routes", "origin": hexl(origin), "rel": rng.chance(1, 2), "rrel": rng.chance(1, 2), "recs": recs_to_case(recs), "kw": kw,
+             "drop_origin": False, "empties": hi % 2 == 0}
+        ctx.case(("routes-edge", hi, str(kw)), sample=c)
+        eval_case(ctx, c)
+    for hi in range(n(2)):
+        # a comment holding a line break (only the object API can make one): the writer must not let it through
+        origin = ORIGINS[0]
+        recs = gen_zone_records(rng, origin, MODEL_TYPES, nnames=2, simple_names=True)
+        recs.append([[b"www"] + list(origin), 60, "A", "192.0.2.1", rng.choice(["evil\nwww2 60 IN A 192.0.2.66", "cr\rlf"])])
+        kw = {"sorted": True, "relativize": True, "nl": "n", "want_comments": True, "want_origin": False}
+        c = {"kind": "routes", "origin": hexl(origin), "rel": True, "rrel": True, "recs": recs_to_case(recs), "kw": kw,
+             "drop_origin": False, "tag": "comment-line-break"}
+        ctx.case(("routes-comment-nl", hi), sample=c)
+        eval_case(ctx, c)
+    if True:
+        origin = ORIGINS[0]
+        recs = gen_zone_records(rng, origin, MODEL_TYPES, nnames=2, simple_names=True)
+        for j in range(300):
+            recs.append([[b"n%03d" % j] + list(origin), 300, "A", "10.%d.%d.1" % (j // 250, j % 250), None])
+        long_name = [b"l" * 63, b"m" * 63, b"n" * 63, b"o" * (255 - 3 * 64 - 1 - len(b"example") - 2)] + list(origin)
+        recs.append([long_name, 60, "A", "192.0.2.255", None])
+        recs.append([[b"big"] + list(origin), 60, "TYPE65280", "\\# 65535 " + "ab" * 65535, None])
+        recs.append([[b"txt255"] + list(origin), 60, "TXT", " ".join('"' + "t" * 255 + '"' for _ in range(40)), None])
+        kw = {"sorted": True, "relativize": rng.chance(1, 2), "nl": "n", "want_comments": False, "want_origin": True}
+        c = {"kind": "routes", "origin": hexl(origin), "rel": rng.chance(1, 2), "rrel": rng.chance(1, 2), "recs": recs_to_case(recs), "kw": kw,
+             "drop_origin": True, "tag": "large"}
+        ctx.case(("routes-large",), sample=None)
         eval_case(ctx, c)
     for di in range(n(12)):
         origin = rng.choice(ORIGINS[:3])
